@@ -91,6 +91,11 @@ def gen_sensitive(rng):
         # sums / products of three and more float literals: folding must round exactly as the evaluation does
         fl = ['0.1', '0.2', '0.3', '0.7', '1.5', '-0.1', '10000000000000000.0', '-10000000000000000.0', '1.0', '3', '0.000001', '123456.789']
         args = [rng.choice(fl) for _ in range(rng.randint(3, 6))]
+        if rng.random() < 0.2:
+            # a constant expression that cannot be computed at all (an integer too large for a float sum), in code that never runs
+            huge = '1' + '0' * rng.randint(309, 330)
+            bad = rng.choice([f'(+ 0.5 {huge})', f'(* 1.5 {huge} 2)', f'(+ {huge} 0.25 1)'])
+            return rng.choice([f'(if #f {bad} 7)', f'(case 1 (2 {bad}) (default 3))', f'(do (defun dead9 [] {bad}) 4)', f'(if (= x x) 5 {bad})'])
         if rng.random() < 0.3:
             args.insert(rng.randrange(len(args) + 1), rng.choice(['x', '(do (print "p") 0.2)']))
         return f'({rng.choice(["+", "+", "*"])} ' + ' '.join(args) + ')'
